@@ -269,7 +269,20 @@ func oracleC11(w *out.W, id string, universe []string, fst []fstate, rst []rstat
 		// the partially applied file is not the greatest recorded version (possible with
 		// non-linear execution): documented semantics = resume it first.
 		if c.order == "non-linear" && fst[partialIdx] == 1 && partialIdx > firstRev {
-			if len(gotList) == 0 || gotList[0] != universe[partialIdx] {
+			// it is itself an out-of-order file: only never-applied out-of-order files of a smaller
+			// version may run before it (out-of-order files run first, in version order)
+			pos := got[universe[partialIdx]] - 1
+			ok := pos >= 0
+			for k := 0; ok && k < pos; k++ {
+				okk := false
+				for j := firstRev; j < partialIdx; j++ {
+					if universe[j] == gotList[k] && rst[j] == 0 && fst[j] == 1 {
+						okk = true
+					}
+				}
+				ok = okk
+			}
+			if !ok {
 				w.Violation(id, "nonlinear-partial-not-resumed", "partially applied out-of-order file is not resumed first: "+desc())
 			}
 		}
